@@ -88,6 +88,20 @@ def gen(ctx):
         nt = rng.choice([2, 8, 16])
         progs = [",".join("s%d:%d" % (rng.randrange(len(exprs)), rng.randrange(3)) for _ in range(rng.randrange(3, 30))) for _ in range(nt)]
         cases.append("%d\t%s\t%s\t%s" % (nt, ",".join(C.hexs(e) for e in exprs), ";".join(docs), "|".join(progs)))
+    # deep-evaluation cases: every thread is deep inside nested evaluations (100 .. 300 frames: nested calls, chains, parentheses, nested
+    # expression references) at the same time, hundreds of times: anything counted, pooled or budgeted per RUNTIME (or per process) instead of
+    # per evaluation — a recursion guard, a scratch stack — sees the sum over all threads and answers differently than a sequential run
+    for _ in range(3 if ctx.tier == "quick" else 40):
+        k = rng.choice([100, 150, 220, 300])
+        exprs = ["not_null(" * k + "a" + ")" * k, "to_array(" * k + "@" + ")" * k + "[0]" * 3, "a" + ".a" * k, "(" * k + "a" + ")" * k, "!" * k + "a",
+                 "map(&" * (k // 4) + "@" + ", @)" * (k // 4), "[" * k + "a" + "]" * k + "[0]" * 5, "a || " * k + "b", "length(" + "to_array(" * k + "a" + ")" * k + ")"]
+        nested = G.enc_str("leaf")
+        for _k in range(k + 2):
+            nested = "{ s61 " + nested + " }"
+        docs = [nested, "{ s61 u5 }", "[ [ u1 ] [ u2 ] ]"]
+        nt = rng.choice([8, 16])
+        progs = [",".join("%s%d:%d" % (rng.choice("ssc"), rng.randrange(len(exprs)), rng.randrange(3)) for _ in range(120)) for _ in range(nt)]
+        cases.append("%d\t%s\t%s\t%s" % (nt, ",".join(C.hexs(e) for e in exprs), ";".join(docs), "|".join(progs)))
     # bulk cases: every thread compiles (through the shared default runtime) and searches thousands of DISTINCT expressions, so that anything
     # shared and size-dependent behind compile (tables that fill up, get evicted or rehashed) is exercised while other threads are inside it
     for _ in range(3 if ctx.tier == "quick" else 60):
